@@ -123,19 +123,23 @@ impl PortableHash {
         }
 
         let (buffered, rest) = cursor.split_at(PACKET_SIZE);
-        let mut buffer = HashPacket::default();
 
         let (len, _) = rest.split_at(core::mem::size_of::<u32>());
         let len = u32::from_le_bytes([len[0], len[1], len[2], len[3]]);
-        buffer.fill(&buffered[..(len as usize).min(buffered.len())]);
 
-        PortableHash {
+        let mut hasher = PortableHash {
             v0,
             v1,
             mul0,
             mul1,
-            buffer,
-        }
+            buffer: HashPacket::default(),
+        };
+
+        // Feed the pending bytes back through `append` so that a count of 32
+        // or more (never produced by `checkpoint`) is absorbed as a full packet
+        // instead of leaving the buffer in a state no backend expects.
+        hasher.append(&buffered[..(len as usize).min(buffered.len())]);
+        hasher
     }
 
     pub(crate) fn finalize64(&mut self) -> u64 {
